@@ -12,7 +12,7 @@ pub fn text() -> BoxedStrategy<String> {
             "", "=", "a=b=c", " lead", "trail ", "\tTab", "é", "💖", "x y z", "devel pkgtools", "2019-08-12 15:58:02 +0100",
             "x86_64", "Darwin", "18.7.0", "testpkg-1.0", "pkgtools/testpkg", "20091115", "A test description",
             "VAR=value", "==", "\u{2028}", "\u{85}x", "a\u{0}b", "日本語", "ß=ü", "-1.0", "test-pkg-", "a-b-1.0nb2",
-            "\u{feff}bom", "x\u{feff}", "back\\nslash \\t \\\\ \\", "C:\\new\\dir", "%s\\n", "tab\there", "\\", "\"quoted\"", "'", "$(x)", "`y`",
+            "\u{feff}bom", "x\u{feff}", "\u{130}stanbul", "\u{23a}\u{23e}", "stra\u{df}e", "\u{fb01}le", "\u{212a}elvin", "\u{1f0}", "back\\nslash \\t \\\\ \\", "C:\\new\\dir", "%s\\n", "tab\there", "\\", "\"quoted\"", "'", "$(x)", "`y`",
         ]).prop_map(String::from),
         2 => "[ -~]{0,24}",
         // tokens the library's own source spells out, alone or joined
